@@ -2509,6 +2509,19 @@ impl StorageEngine {
                     if !expired_keys.is_empty() {
                         let mut shard_guard = shard.write().unwrap();
                         for key in expired_keys {
+                            // The index entry may be stale: the key may have been overwritten,
+                            // persisted, re-created or given a later deadline since it was
+                            // collected. Only the value's own deadline decides.
+                            let is_expired = shard_guard.data.get(&key)
+                                .map_or(false, |stored_value| stored_value.is_expired());
+                            if !is_expired {
+                                match shard_guard.data.get(&key).and_then(|v| v.metadata.expires_at) {
+                                    Some(expires_at) => { shard_guard.expiring_keys.insert(key.clone(), expires_at); }
+                                    None => { shard_guard.expiring_keys.remove(&key); }
+                                }
+                                continue;
+                            }
+                            
                             if let Some(stored_value) = shard_guard.data.remove(&key) {
                                 shard_guard.expiring_keys.remove(&key);
                                 
